@@ -188,7 +188,7 @@ func runRedef(c *Ctx) {
 		// (a) path head: value is a phi/element of this iteration's EdgeToPath result, index 0 or 1
 		isHead := true
 		any := false
-		for _, s := range core.Sources(mu.Value) {
+		for _, s := range p.ISources(mu.Value) {
 			any = true
 			ld, ok := s.(*ssa.UnOp)
 			if !ok {
@@ -279,10 +279,14 @@ func runRedef(c *Ctx) {
 		} else {
 			// the supplied set: a map filled with VertexID(v) for v ranging over the graph builder's input list
 			var supplied ssa.Value
-			core.Instrs(planner, func(in ssa.Instruction) {
+			p.RegionInstrs(planner, func(in ssa.Instruction) {
 				if mu, ok := in.(*ssa.MapUpdate); ok {
 					if id, ok := mu.Key.(*ssa.Call); ok && core.CalleeName(id.Common()) == core.GVertexID {
-						if r, ok := core.Root(id.Common().Args[0]).(*ssa.Extract); ok && r.Tuple == ssa.Value(gbCall) {
+						root := core.Root(id.Common().Args[0])
+						if prm, isPrm := root.(*ssa.Parameter); isPrm {
+							root = p.Bind(prm) // the list handed to a private step of the planner
+						}
+						if r, ok := root.(*ssa.Extract); ok && r.Tuple == ssa.Value(gbCall) {
 							supplied = mu.Map
 						}
 					}
@@ -802,8 +806,32 @@ func (c *Ctx) allowEdge(u ssa.Instruction, v ssa.Value, want bool, allowed map[[
 func derivesFromCall(v ssa.Value, callee string) bool {
 	for i := 0; i < 12; i++ {
 		switch x := v.(type) {
+		case *ssa.Parameter:
+			// the path handed to a private step
+			if core.Active == nil {
+				return false
+			}
+			b := core.Active.Bind(x)
+			if b == ssa.Value(x) {
+				return false
+			}
+			v = b
+			continue
 		case *ssa.Call:
-			return core.CalleeName(x.Common()) == callee
+			if core.CalleeName(x.Common()) == callee {
+				return true
+			}
+			// a private step that returns exactly what the callee produced (`return g.EdgeToPath(…)`)
+			if h := x.Common().StaticCallee(); h != nil && core.Active != nil && core.Active.PrivateHelper(h) && h.Signature.Results().Len() == 1 {
+				rets := core.Returns(h)
+				for _, r := range rets {
+					if len(r.Results) != 1 || !derivesFromCall(r.Results[0], callee) {
+						return false
+					}
+				}
+				return len(rets) > 0
+			}
+			return false
 		case *ssa.UnOp:
 			switch a := x.X.(type) {
 			case *ssa.IndexAddr:
